@@ -103,6 +103,8 @@ structure Sched where
   sid : Nat
   at_ : Nat
   lat : Nat
+  /-- ghost: this entry is the `-ECANCELED` replacement of a cancelled target -/
+  canc : Bool
 deriving DecidableEq, Repr, Inhabited
 
 /-- A drained completion (ghost record). -/
@@ -113,6 +115,9 @@ structure Done where
   t : Nat
   at_ : Nat
   lat : Nat
+  canc : Bool
+  /-- what was executed at that moment -/
+  apply : Apply
 deriving DecidableEq, Repr, Inhabited
 
 structure RingSt where
@@ -124,12 +129,11 @@ structure RingSt where
   nextSid : Nat
   acc : List (Nat × Nat)
   drained : List Done
-  cancelled : List Nat
 deriving DecidableEq, Repr, Inhabited
 
 def RingSt.new (depth : Nat) : RingSt :=
   { depth := depth, sq := [], inflight := [], ready := [], visible := none,
-    nextSid := 0, acc := [], drained := [], cancelled := [] }
+    nextSid := 0, acc := [], drained := [] }
 
 /-- What the completion-time execution does: exactly the synchronous API. -/
 def exec (fs : Files) : Apply → Files × Int × List Nat
@@ -161,24 +165,24 @@ def removeFirstB (p : Sched → Bool) : List (List Sched) → Option (Sched × L
 def cancelStep (r : RingSt) (now csid cud target : Nat) : RingSt :=
   match removeFirst (fun x => x.ud == target) r.inflight with
   | some (x, rest) =>
-    { r with inflight := rest ++ [⟨now, target, .imm ECANCELED, x.sid, now, 0⟩, ⟨now, cud, .imm 0, csid, now, 0⟩],
-             cancelled := r.cancelled ++ [x.sid] }
+    { r with inflight := rest ++ [⟨now, target, .imm ECANCELED, x.sid, now, 0, true⟩,
+                                  ⟨now, cud, .imm 0, csid, now, 0, false⟩] }
   | none =>
     match removeFirstB (fun x => x.ud == target) r.ready with
     | some (x, ready') =>
       { r with ready := ready',
-               inflight := r.inflight ++ [⟨now, target, .imm ECANCELED, x.sid, now, 0⟩, ⟨now, cud, .imm 0, csid, now, 0⟩],
-               cancelled := r.cancelled ++ [x.sid] }
-    | none => { r with inflight := r.inflight ++ [⟨now, cud, .imm ENOENT, csid, now, 0⟩] }
+               inflight := r.inflight ++ [⟨now, target, .imm ECANCELED, x.sid, now, 0, true⟩,
+                                          ⟨now, cud, .imm 0, csid, now, 0, false⟩] }
+    | none => { r with inflight := r.inflight ++ [⟨now, cud, .imm ENOENT, csid, now, 0, false⟩] }
 
 /-- one iteration of the loop in `submit::schedule_pending` -/
 def submitOne (r : RingSt) (now : Nat) (sid : Nat) (e : Sqe) (lat : Nat) : RingSt :=
-  if e.bad then { r with inflight := r.inflight ++ [⟨now, e.ud, .imm EINVAL, sid, now, 0⟩] }
+  if e.bad then { r with inflight := r.inflight ++ [⟨now, e.ud, .imm EINVAL, sid, now, 0, false⟩] }
   else
     match e.op with
-    | .read fd off len => { r with inflight := r.inflight ++ [⟨now + lat, e.ud, .read fd off len, sid, now, lat⟩] }
-    | .write fd off d => { r with inflight := r.inflight ++ [⟨now + lat, e.ud, .write fd off d, sid, now, lat⟩] }
-    | .fsync fd => { r with inflight := r.inflight ++ [⟨now + lat, e.ud, .fsync fd, sid, now, lat⟩] }
+    | .read fd off len => { r with inflight := r.inflight ++ [⟨now + lat, e.ud, .read fd off len, sid, now, lat, false⟩] }
+    | .write fd off d => { r with inflight := r.inflight ++ [⟨now + lat, e.ud, .write fd off d, sid, now, lat, false⟩] }
+    | .fsync fd => { r with inflight := r.inflight ++ [⟨now + lat, e.ud, .fsync fd, sid, now, lat, false⟩] }
     | .cancel t => cancelStep r now sid e.ud t
 
 def submitLoop (now : Nat) : List (Nat × Sqe) → List Nat → RingSt → RingSt
@@ -194,14 +198,22 @@ def promote (r : RingSt) (now : Nat) : RingSt :=
   | [] => r
   | m :: ms => { r with inflight := r.inflight.filter (fun x => !(x.when_ ≤ now)), ready := r.ready ++ [m :: ms] }
 
+def takeNth : Nat → List Sched → Option (Sched × List Sched)
+  | _, [] => none
+  | 0, x :: xs => some (x, xs)
+  | n + 1, x :: xs =>
+    match takeNth n xs with
+    | some (y, ys) => some (y, x :: ys)
+    | none => none
+
 /-- front of the shuffled `ready` queue: the `pick`-th entry of the oldest non-empty batch -/
 def popPick : List (List Sched) → Nat → Option (Sched × List (List Sched))
   | [], _ => none
   | [] :: bs, pick => popPick bs pick
   | (x :: xs) :: bs, pick =>
-    let b := x :: xs
-    let i := pick % b.length
-    some (b.getD i x, if (b.eraseIdx i).isEmpty then bs else b.eraseIdx i :: bs)
+    match takeNth (pick % (xs.length + 1)) (x :: xs) with
+    | some (y, rest) => some (y, if rest.isEmpty then bs else rest :: bs)
+    | none => none
 
 inductive ROp
   | push (e : Sqe)
@@ -241,7 +253,7 @@ def ringStep (now : Nat) (fs : Files) (r : RingSt) : ROp → RingSt × Files × 
       | some (x, ready') =>
         let res := exec fs x.apply
         ({ r1 with ready := ready', visible := some k,
-                   drained := r1.drained ++ [⟨x.sid, x.ud, res.2.1, now, x.at_, x.lat⟩] },
+                   drained := r1.drained ++ [⟨x.sid, x.ud, res.2.1, now, x.at_, x.lat, x.canc, x.apply⟩] },
           res.1, .cqe x.ud res.2.1 res.2.2)
   | .readable => (r, fs, .ready (decide (0 < readyCount r now)))
 
